@@ -31,8 +31,8 @@ if '--seed' in args:
 if props is None:
     props = [re.match(r'(C\d+)', sid).group(1)]
 
-wt = '/tmp/hltest-' + sid
-vcopy = '/tmp/verif-hl-' + sid
+wt = '/tmp/hltest-%s-%d' % (sid, os.getpid())
+vcopy = '/tmp/verif-hl-%s-%d' % (sid, os.getpid())
 
 
 def sh(cmd, cwd=None, env=None, timeout=3600):
